@@ -56,14 +56,13 @@ type cfgCase struct {
 	Sources  map[string]string `json:"sources_per_key"`
 }
 
+// boolSpell: an environment variable is a string; every spelling strconv.ParseBool takes is a boolean there
+// (the documented behaviour of the VFLOW_* variables), in the quick tier as well.
 func boolSpell(g *mon.RNG, v bool, thorough bool) string {
-	if !thorough {
-		return strconv.FormatBool(v)
-	}
 	if v {
-		return []string{"true", "True", "TRUE", "1", "t"}[g.Intn(5)]
+		return []string{"true", "True", "TRUE", "1", "t", "T"}[g.Intn(6)]
 	}
-	return []string{"false", "False", "FALSE", "0", "f"}[g.Intn(5)]
+	return []string{"false", "False", "FALSE", "0", "f", "F"}[g.Intn(6)]
 }
 
 // buildCfgCase assigns every key an independent subset of {env,file,flag} (Latin square over the
@@ -620,7 +619,7 @@ func configMain(args mon.Args) {
 	}
 	run.Set("key_x_source_cells_covered", len(cells))
 	run.Set("keys_observed", len(ckeys))
-	run.SetRule("every observed key (4 UDP ports, 4 enable switches, 4 worker counts, stats port/address/format/enabled, pid file, log file, verbose, 2 cache files, cpu-cap, producer-enabled, dynamic-workers, ipfix-rpc-enabled: integer, string and boolean kinds) gets an independent subset of {VFLOW_* environment, configuration file, command line} by a Latin square over 16 collector processes (every key meets all 8 subsets), with a distinct value per source (a boolean source always disagrees with the one it overrides; in half of the processes a winning file/flag value of the worker counts, stats address, log file and cpu-cap is the built-in default itself, i.e. 200, the empty string, 100%); the -config option stands first, last or in the middle of the command line; string-valued keys are written plain, double-quoted or single-quoted in the file; thorough adds random subsets/values and boolean spellings. The real binary is started and the effective value is read back behaviourally: UDP/TCP sockets of the process from /proc, Workers from /flow or /metrics, which endpoint answers, files that appear (pid, log, cache files after SIGTERM), the verbose banner. Expected = flag ?? file ?? env ?? built-in default. distinct = source assignment")
+	run.SetRule("every observed key (4 UDP ports, 4 enable switches, 4 worker counts, stats port/address/format/enabled, pid file, log file, verbose, 2 cache files, cpu-cap, producer-enabled, dynamic-workers, ipfix-rpc-enabled: integer, string and boolean kinds) gets an independent subset of {VFLOW_* environment, configuration file, command line} by a Latin square over 16 collector processes (every key meets all 8 subsets), with a distinct value per source (a boolean source always disagrees with the one it overrides; in half of the processes a winning file/flag value of the worker counts, stats address, log file and cpu-cap is the built-in default itself, i.e. 200, the empty string, 100%); the -config option stands first, last or in the middle of the command line; string-valued keys are written plain, double-quoted or single-quoted in the file; boolean environment values use every spelling strconv.ParseBool takes (true/True/TRUE/1/t/T ...); thorough adds random subsets/values. The real binary is started and the effective value is read back behaviourally: UDP/TCP sockets of the process from /proc, Workers from /flow or /metrics, which endpoint answers, files that appear (pid, log, cache files after SIGTERM), the verbose banner. Expected = flag ?? file ?? env ?? built-in default. distinct = source assignment")
 	run.Assume("keys without an external observable (*-udp-size, mirror settings, topics with the rawSocket backend, mq-name) and the list-valued sflow-type-filter are not covered")
 	run.Finish()
 }
